@@ -71,7 +71,25 @@ def catalogue():
                    [{'a': 'x', 'b': True}, 3, {'a': 1, 'b': True, 'c': 0}]),
         'scaled': (lambda: ScaledInteger(0.5, 0, 10), [0.0, 0.5, 1, 0.6], ['q', None]),
         'blob': (lambda: BLOBType(), [b'', b'ab', b'\x00\xff'], ['str', 5]),
+        # values that differ by LESS than what the datatype calls its resolution (and by one unit in the last place): all of
+        # them are different values of the parameter; the first six of each pool are a drift (each one close to its neighbour,
+        # the ends further apart than the resolution)
+        'floatres': (lambda: FloatRange(0, 100, absolute_resolution=0.01),
+                     [50.0, 50.004, 50.008, 50.012, 50.016, 50.02, 49.996, 50.00000000000001, 0.0, 0.004, 100.0, 99.999], ['x', None, 250.0]),
+        'floatrel': (lambda: FloatRange(relative_resolution=1e-3),
+                     [1000.0, 1000.4, 1000.8, 1001.2, 1001.6, 1002.0, 999.6, 1000.0000000000001, 0.0, 1e-9, -1000.4], ['x', None]),
+        'floatulp': (lambda: FloatRange(), [1.5, 1.5000001, 1.5000002, 1.5000003, 1.5000004, 1.5000005, 1.4999999,
+                                            1.5000000000000002, 0.0, 5e-324, 1e-7, -1.5000001], ['x', None]),
+        'arrayres': (lambda: ArrayOf(FloatRange(0, 10, absolute_resolution=0.1), 0, 2),
+                     [[1.0, 2.0], [1.04, 2.0], [1.08, 2.0], [1.08, 2.04], [1.12, 2.04], [1.16, 2.08], [1.0], []], [[1.0, 2.0, 3.0], 5]),
+        'scaledres': (lambda: ScaledInteger(0.01, 0, 10, absolute_resolution=0.05), [1.0, 1.01, 1.02, 1.03, 1.04, 1.05, 0.99, 1.004],
+                      ['q', None]),
     }
+
+
+# kinds whose pool starts with a drift: DRIFT_LEN successive values, each closer to its neighbour than the resolution
+DRIFT_KINDS = ['floatres', 'floatrel', 'floatulp', 'arrayres', 'scaledres']
+DRIFT_LEN = 6
 
 
 def error_pool():
@@ -608,6 +626,23 @@ def gen_params(rng, n):
             for _ in range(n)]
 
 
+def gen_drift(rng, n, steps):
+    """n successive operations that move the value along the drift of the pool, one neighbour at a time"""
+    idx = rng.randrange(DRIFT_LEN)
+    up = rng.random() < 0.7
+    out = []
+    for _ in range(n):
+        if idx == DRIFT_LEN - 1:
+            up = False
+        elif idx == 0:
+            up = True
+        idx += 1 if up else -1
+        op = rng.choice([['read', 'ret', idx], ['read', 'ret', idx], ['assign', idx], ['write', idx, 'ok', ['none']],
+                         ['write', 0, 'ok', ['ret', idx]], ['announce', idx, None, rng.random() < 0.5]])
+        out.append([rng.choice([0, 0, 1, 1, rng.choice(steps)]), op])
+    return out
+
+
 def gen_seq(rng, big):
     params = gen_params(rng, 1)
     case = {'params': params, 'mw': rng.choice(MW), 'gw': rng.choice(GW), 'ops': []}
@@ -625,6 +660,10 @@ def gen_seq(rng, big):
             op = list(sticky)                      # repeat the previous operation (unchanged value / identical error)
         sticky = op
         case['ops'].append([rng.choice(steps), op])
+    # drift: successive values each closer to the previous one than the resolution of the datatype, at short intervals
+    if params[0]['kind'] in DRIFT_KINDS and rng.random() < 0.7:
+        at = rng.randrange(len(case['ops']) + 1)
+        case['ops'][at:at] = gen_drift(rng, rng.randint(2, 12 if big else 7), steps)
     # activations: most histories start with one; more connections join (or re-activate) at random places
     if rng.random() < 0.85:
         case['ops'].insert(0, [0, ['activate', 0, rng.choice(ACT_KINDS), 0]])
@@ -817,7 +856,7 @@ def gen_kernel(rng):
     small enough that all schedules with one preemption are enumerated"""
     cat = [['assign', 0], ['assign', 1], ['read', 'ret', 0], ['read', 'ret', 1], ['read', 'raise', 0],
            ['write', 1, 'ok', ['none']], ['announce', 0, None, False]]
-    params = [{'kind': rng.choice(['float', 'int', 'enum', 'string']), 'uu': rng.choice(['default', 'never', 2.0, 'always']),
+    params = [{'kind': rng.choice(['float', 'int', 'enum', 'string', 'floatres']), 'uu': rng.choice(['default', 'never', 2.0, 'always']),
                'nodefault': False, 'has_write': rng.random() < 0.5, 'has_check': False, 'readonly': False}]
     progs = [[[0, list(rng.choice(cat))]], [[0, list(rng.choice(cat))]]]
     if rng.random() < 0.4:
@@ -865,7 +904,7 @@ def gen_conc(rng, big):
     npar = rng.choice([1, 1, 2])
     params = gen_params(rng, npar)
     for ps in params:
-        ps['kind'] = rng.choice(['float', 'int', 'enum', 'string', 'tuple'])
+        ps['kind'] = rng.choice(['float', 'int', 'enum', 'string', 'tuple', 'floatres', 'floatulp'])
     nthreads = rng.choice([1, 2, 2, 2, 3])
     nerr = len(error_pool())
     progs = []
